@@ -1,11 +1,19 @@
 use crate::gen_ops;
 use crate::util::*;
 use bigdecimal::*;
+use num_bigint::{BigInt, ToBigInt};
+use num_traits::{FromPrimitive, ToPrimitive};
 
 pub fn dispatch(f: &[&str]) -> String {
     match f[0] {
         "binop" => gen_ops::binop(f[1], f[2], f[3], f[4], f[5]),
         "unop" => unop(f[1], f[2]),
+        "to_prim" => to_prim(f[1], f[2], f[3]),
+        "to_bigint" => match p_dec(f[1]).to_bigint() { Some(v) => v.to_string(), None => "None".to_string() },
+        "is_integer" => p_dec(f[1]).is_integer().to_string(),
+        "from_prim" => from_prim(f[1], f[2]),
+        "from_pair" => from_pair(f[1], f[2], f[3]),
+        "from_primitive" => from_primitive(f[1], f[2]),
         _ => format!("UNKNOWN-OP {}", f[0]),
     }
 }
@@ -27,4 +35,74 @@ fn unop(name: &str, a: &str) -> String {
         "clone" => f_dec(&x.clone()),
         _ => format!("UNKNOWN-UNOP {}", name),
     }
+}
+
+fn opt<T: ToString>(v: Option<T>) -> String {
+    match v {
+        Some(v) => v.to_string(),
+        None => "None".to_string(),
+    }
+}
+
+fn to_prim(form: &str, target: &str, a: &str) -> String {
+    let x = p_dec(a);
+    if form == "val" {
+        match target {
+            "i64" => opt(x.to_i64()),
+            "i128" => opt(x.to_i128()),
+            "u64" => opt(x.to_u64()),
+            "u128" => opt(x.to_u128()),
+            _ => "UNKNOWN-TARGET".to_string(),
+        }
+    } else {
+        let r = x.to_ref();
+        match target {
+            "i64" => opt(r.to_i64()),
+            "i128" => opt(r.to_i128()),
+            "u64" => opt(r.to_u64()),
+            "u128" => opt(r.to_u128()),
+            _ => "UNKNOWN-TARGET".to_string(),
+        }
+    }
+}
+
+macro_rules! from_prim_arms {
+    ($ty:expr, $v:expr, $($t:ident),*) => {
+        match $ty {
+            $( stringify!($t) => { let n: $t = p_prim($v); f_dec(&BigDecimal::from(n)) } )*
+            $( concat!("&", stringify!($t)) => { let n: $t = p_prim($v); f_dec(&BigDecimal::from(&n)) } )*
+            "num_bigint::BigInt" | "BigInt" => f_dec(&BigDecimal::from(p_big($v))),
+            _ => "UNKNOWN-TYPE".to_string(),
+        }
+    };
+}
+
+fn from_prim(ty: &str, v: &str) -> String {
+    from_prim_arms!(ty, v, u8, u16, u32, u64, u128, i8, i16, i32, i64, i128)
+}
+
+macro_rules! from_pair_arms {
+    ($ty:expr, $v:expr, $s:expr, $($t:ident),*) => {
+        match $ty {
+            $( stringify!($t) => { let n: $t = p_prim($v); f_dec(&BigDecimal::from((n, $s))) } )*
+            "num_bigint::BigInt" | "BigInt" => { let n: BigInt = p_big($v); f_dec(&BigDecimal::from((n, $s))) }
+            _ => "UNKNOWN-TYPE".to_string(),
+        }
+    };
+}
+
+fn from_pair(ty: &str, v: &str, s: &str) -> String {
+    let sc: i64 = s.parse().unwrap();
+    from_pair_arms!(ty, v, sc, u8, u16, u32, u64, u128, i8, i16, i32, i64, i128)
+}
+
+fn from_primitive(ty: &str, v: &str) -> String {
+    let r = match ty {
+        "i64" => BigDecimal::from_i64(p_prim(v)),
+        "u64" => BigDecimal::from_u64(p_prim(v)),
+        "i128" => BigDecimal::from_i128(p_prim(v)),
+        "u128" => BigDecimal::from_u128(p_prim(v)),
+        _ => None,
+    };
+    f_opt_dec(&r)
 }
